@@ -25,10 +25,15 @@ import (
 	"time"
 )
 
-const (
-	verifDir = "/verif"
-	repoDir  = "/repo"
-)
+const repoDir = "/repo"
+
+// verifDir is where the framework lives: /verif, or a snapshot copy of it (VERIF_DIR, set by ./check).
+var verifDir = func() string {
+	if d := os.Getenv("VERIF_DIR"); d != "" {
+		return d
+	}
+	return "/verif"
+}()
 
 func infra(format string, a ...any) {
 	fmt.Printf("INFRA: "+format+"\n", a...)
